@@ -207,6 +207,22 @@ void harness(void) {
 	ref_hchacha(key, 256, hc20_nonce, 20, out);
 	for (int i = 0; i < 32; i++)
 		V_ASSERT(out[i] == hc20_out[i], "reference reproduces the published HChaCha20 vector");
+	/* the library itself on the same vectors (concrete runs; gives a natively reproducible failure for gross kernel
+	 * regressions -- the universal claims are the KS/XOR obligations above, not these) */
+	static const struct { size_t ksz; unsigned rounds; const uint8_t *exp; } lv[6] = {
+		{ 16, 8, tc1_k128_r8 }, { 128, 12, tc1_k128_r12 }, { 16, 20, tc1_k128_r20 },
+		{ 32, 8, tc1_k256_r8 }, { 256, 12, tc1_k256_r12 }, { 32, 20, tc1_k256_r20 } };
+	for (int v = 0; v < 6; v++) {
+		uint8_t zkey[32] = { 0 };
+		uint8_t *buf = (uint8_t *)v_alloc(72);
+		chacha(zkey, lv[v].ksz, NULL, NULL, lv[v].rounds, NULL, 70, buf + (v % 3));	/* aligned8 / unaligned paths + tail */
+		for (int i = 0; i < 16; i++)
+			V_ASSERT(buf[(v % 3) + i] == lv[v].exp[i], "library chacha() reproduces the published TC1 key stream");
+	}
+	uint8_t lout[32];
+	hchacha(key, 32, hc20_nonce, 20, lout);
+	for (int i = 0; i < 32; i++)
+		V_ASSERT(lout[i] == hc20_out[i], "library hchacha() reproduces the published HChaCha20 vector");
 	V_WITNESS_MUST("anchor evaluated");
 }
 #endif
